@@ -593,6 +593,8 @@ pub fn run(op: &str, a: &Args) -> Option<Outcome> {
         ["xpath", "deep"] => Some(crate::ops_seq::xpath_deep(arg(a, "doc"))),
         ["xpath", "deep_inproc"] => Some(crate::ops_seq::xpath_deep_inproc(arg(a, "doc"))),
         ["xpath", "corpus_repeat"] => Some(crate::ops_seq::xpath_corpus_repeat(arg(a, "doc").parse().unwrap_or(0), arg(a, "query"), arg(a, "expected"))),
+        ["xpath", "union_algebra"] => Some(crate::ops_seq::xpath_union_algebra(arg(a, "a"), arg(a, "b"))),
+        ["xpath", "ctx_series"] => Some(crate::ops_seq::xpath_ctx_series(arg(a, "first"), arg(a, "second"))),
         ["xpath", "corpus_order"] => Some(crate::ops_seq::xpath_corpus_order(arg(a, "doc").parse().unwrap_or(0), arg(a, "query"), arg(a, "expected"))),
         ["xpath", "corpus"] | ["xpath", "corpus_paths"] | ["xpath", "corpus_scalars"] | ["xpath", "corpus_scalars0"] | ["xpath", "corpus_names"] => Some(crate::ops_seq::xpath_corpus(arg(a, "doc").parse().unwrap_or(0), arg(a, "query"), arg(a, "expected"))),
         ["xpath", rest @ ..] => crate::ops_more::xpath_op(rest, a),
@@ -792,6 +794,22 @@ pub fn grid(op: &str, limit: usize) -> (usize, Vec<(Args, Outcome)>) {
                 try_one(mk(&[("doc", d), ("query", q.as_str()), ("expected", e)]), &mut n, &mut bad);
             }
         }
+        ["xpath", "union_algebra"] => {
+            // every ordered pair of the operand paths
+            for f in crate::ops_seq::UNION_OPERANDS {
+                for g in crate::ops_seq::UNION_OPERANDS {
+                    try_one(mk(&[("a", f), ("b", g)]), &mut n, &mut bad);
+                }
+            }
+        }
+        ["xpath", "ctx_series"] => {
+            // every ordered pair of the series queries: the second on a context that served the first
+            for f in crate::ops_seq::CTX_SERIES {
+                for g in crate::ops_seq::CTX_SERIES {
+                    try_one(mk(&[("first", f), ("second", g)]), &mut n, &mut bad);
+                }
+            }
+        }
         ["xpath", "corpus_order"] => {
             for line in crate::ops_seq::XPATH_CORPUS.lines() {
                 let mut it = line.splitn(3, '\t');
@@ -918,6 +936,11 @@ pub fn grid(op: &str, limit: usize) -> (usize, Vec<(Args, Outcome)>) {
         ["info", "roundtrip"] => {
             for d in crate::ops_more::ROUNDTRIP_DOCS {
                 try_one(mk(&[("doc", d)]), &mut n, &mut bad);
+            }
+            // enumerated: every attribute value and every content of up to three pieces (quotes, their character and entity references,
+            // markup characters, the parts of "]]>", CDATA sections, comments) -- the shapes whose print needs the right delimiter or escape
+            for d in crate::ops_more::roundtrip_enumerated() {
+                try_one(mk(&[("doc", d.as_str())]), &mut n, &mut bad);
             }
         }
         ["info", "attr_defaults"] => {
